@@ -6,7 +6,7 @@ RULE = ("random valid curves: degree 0..4, 0..3 distinct interior knots with mul
         "parameters: every knot, both ends, span midpoints, random interior; representations Fraction, int knots, float; "
         "outside parameters and empty sequences.  A case is non-trivial when degree >= 2 or there is an interior knot; "
         "distinct = distinct (U,P,W,parameters) tuples."
-        " Also: parameters closer to every knot than double precision (k +- 1e-20) and the float next to every rational knot; int/float twins evaluated before Fraction data.")
+        " Also: parameters closer to every knot than double precision (k +- 1e-20) and the float next to every rational knot; int/float twins evaluated before Fraction data; integer / dyadic knot vectors with their python-int / float twin evaluated first; sequence nodes as list / tuple / generator / iterator / map / ndarray; degrees 5..8.")
 EXPLANATION = ("L2: Curve.eval vs the model's table+Horner evaluation (exact); L3: Curve.eval vs the Cox-de Boor definition "
                "`curveDef` evaluated by the driver; the theorem eval_eq_def states model = definition for all inputs.")
 ASSUMPTIONS = ["weights positive (find_roots is sampled, not modelled exactly)",
@@ -34,6 +34,11 @@ def run_case(ctx, case):
     rec.count("rep", rep)
     rec.count("degree", str(kv_info(c["U"])[0]))
     rec.count("weights", "rational" if W is not None else "polynomial")
+    if rep == "fraction":
+        # the same curve on numerically equal python-int / float knots evaluated first (tables memoised on knot tuples would be theirs)
+        for tw in mixed_twins(U, P, W):
+            impl(lambda: tw([(frac(tw.knotvector[0]) + frac(tw.knotvector[-1])) / 2]))
+            rec.count("twin", "mixed-knot-types-first")
     r = impl(lambda: make_curve(Ui, Pi, Wi, scalar))
     if r[0] != "ok":
         rec.violation("constructor rejected a valid curve", case, observed=r[1])
@@ -81,7 +86,9 @@ def run_case(ctx, case):
         ctx["rng"].shuffle(order)
         inside = [inside[i] for i in order]
         ins_impl = [ins_impl[i] for i in order]
-        r = impl(lambda: curve(ins_impl))
+        form = form_of(case)
+        rec.count("nodes-as", form)
+        r = impl(lambda: curve(as_form(ins_impl, form if form != "nparray" or exact else "list")))
         mm = drv.call("curve.eval", *curve_args(U, P, W), inside)
         if r[0] != "ok":
             rec.violation("sequence evaluation raised", case, observed=r[1])
@@ -134,6 +141,12 @@ def run(ctx):
             U = [F(a)] * (p + 1) + [F(k) for k in ks for _ in range(rng.randint(1, p + 1))] + [F(a + 6)] * (p + 1)
         if rep in ("float", "npfloat"):
             U = rand_kv(rng, pmax=4, maxmult=None, bigknots=False)
+        if rep == "fraction" and i % 10 == 7:
+            U = rand_int_kv(rng, pmax=3, nintmax=2) if rng.random() < 0.5 else rand_dyadic_kv(rng, pmax=3, nintmax=2)
+        if rep == "fraction" and i % 25 == 11:
+            # high degrees (5..8), one or no interior knot
+            p_ = rng.randint(5, 8)
+            U = [F(0)] * (p_ + 1) + ([F(rng.randint(1, 9), 10)] * rng.randint(1, 2) if rng.random() < 0.5 else []) + [F(1)] * (p_ + 1)
         p, npts, knots = kv_info(U)
         P = rand_points(rng, npts, big=big)
         W = rand_weights(rng, npts) if i % 9 != 4 else rand_weights(rng, npts, rng.choice(["tiny", "nearequal", "huge", "neg"]))
